@@ -483,15 +483,18 @@ func (s *Server) handleRPCReplenishAccounts(stream net.Conn) error {
 
 	var depositSum types.Currency
 	var costResp rhp4.RPCReplenishAccountsResponse
+	seen := make(map[rhp4.Account]bool, len(req.Accounts))
 	for i, balance := range balances {
 		deposit := rhp4.AccountDeposit{
 			Account: req.Accounts[i],
 		}
 
+		// an account listed more than once is only topped up once
 		value, underflows := req.Target.SubWithUnderflow(balance)
-		if !underflows {
+		if !underflows && !seen[deposit.Account] {
 			deposit.Amount = value
 		}
+		seen[deposit.Account] = true
 		depositSum = depositSum.Add(deposit.Amount)
 		costResp.Deposits = append(costResp.Deposits, deposit)
 	}
@@ -555,14 +558,17 @@ func (s *Server) handleRPCReplenishPools(stream net.Conn) error {
 
 	var depositSum types.Currency
 	var costResp rhp4.RPCReplenishAccountsResponse
+	seen := make(map[rhp4.Account]bool, len(req.Accounts))
 	for i, balance := range balances {
 		deposit := rhp4.AccountDeposit{
 			Account: req.Accounts[i],
 		}
+		// a pool listed more than once is only topped up once
 		value, underflows := req.Target.SubWithUnderflow(balance)
-		if !underflows {
+		if !underflows && !seen[deposit.Account] {
 			deposit.Amount = value
 		}
+		seen[deposit.Account] = true
 		depositSum = depositSum.Add(deposit.Amount)
 		costResp.Deposits = append(costResp.Deposits, deposit)
 	}
